@@ -310,8 +310,10 @@ def write_evidence(ctx, level, rule, assumptions, extra=None):
         'wall_s': round(time.time() - ctx.t_start, 1),
         'violations': len(ctx.violations),
     }
-    os.makedirs(os.path.join(VERIF, 'evidence'), exist_ok=True)
-    json.dump(ev, open(os.path.join(VERIF, 'evidence', ctx.prop + '.json'), 'w'), indent=1)
+    # checks of behaviour outside the listed properties (X..) keep their evidence apart
+    edir = os.path.join(VERIF, 'evidence' if ctx.prop.startswith('C') else 'evidence_extra')
+    os.makedirs(edir, exist_ok=True)
+    json.dump(ev, open(os.path.join(edir, ctx.prop + '.json'), 'w'), indent=1)
 
 
 def main(argv):
